@@ -127,6 +127,10 @@ KEYWORDS = {"if", "while", "for", "match", "return", "let", "fn", "loop", "else"
             "Some", "Ok", "Err", "None", "Box", "Vec", "drop", "assert", "panic", "format", "vec"}
 
 
+# receivers that denote a validator object in node.rs / channel.rs (`let validator = self.validator();`,
+# `self.validator().x(`)
+VALIDATOR_RECEIVERS = ("validator", "validator()")
+
 # names the closure parameter of with_channel / with_channel_base carries in handler.rs
 CLOSURE_PARAMS = ("chan", "base", "channel", "ch", "c")
 
@@ -142,13 +146,63 @@ NON_REQUEST_SITES = {
     "node::new_from_persistence": "constructor (restore)",
     "node::restore_node": "constructor (restore)",
     "node::maybe_sync_persister": "called by restore_node only",
-    "provider::new": "constructor of the commitment point provider",
     "monitor::new_from_persistence": "constructor (restore)",
     "monitor::add_funding": "used by the unit tests of monitor.rs only",
     "monitor::funding_depth": "used by unit tests only",
     "monitor::funding_double_spent_depth": "used by unit tests only",
     "monitor::closing_depth": "used by unit tests only",
 }
+
+# calls the name-based resolution does not follow although a function of the same NAME in the scanned files takes
+# a lock ("file: receiver.name"), each with the reason why the callee is a different function (reviewed).
+# Anything else of that kind fails the extraction (call_census).
+UNRESOLVED_OK = {
+    # the Approve delegate chain (trait object): VelocityApprover -> MemoApprover -> ... approver mutexes of
+    # DIFFERENT instances; listed in the trusted base of bin/propcfg/C20.json
+    "approver: delegate.approve_invoice": "Approve trait object (delegate chain)",
+    "approver: delegate.approve_keysend": "Approve trait object (delegate chain)",
+    "approver: delegate.approve_onchain": "Approve trait object (delegate chain)",
+    # ChannelSlot::chaninfo dispatches to ChannelStub::chaninfo / Channel::chaninfo: all three bodies are already
+    # alternatives of the one scanned name `channel::chaninfo`
+    "channel: chan.chaninfo": "same-name dispatch inside channel.rs (bodies are alternatives of channel::chaninfo)",
+    "channel: stub.chaninfo": "same-name dispatch inside channel.rs (bodies are alternatives of channel::chaninfo)",
+    "channel: enforcement_state.balance": "EnforcementState::balance (plain data), not Channel::balance",
+    "channel: keys.release_commitment_secret": "InMemorySigner::release_commitment_secret (key material), not Channel's",
+    # construction / restore code: runs before the node is shared between threads (NON_REQUEST_SITES)
+    "handler: InitHandler.new": "constructor",
+    "handler: Node.new": "constructor",
+    "handler: Node.restore_node": "restore, before the node is shared (HandlerBuilder::build)",
+    "node: ChainMonitorBase.new": "constructor of a monitor nobody else can reach yet (takes no lock itself: checked by site_census)",
+    "node: ChainMonitorBase.new_from_persistence": "restore",
+    "node: Node.new_from_persistence": "restore",
+    "node: Node.restore_node": "restore",
+    "node: NodeState.new": "constructor of plain data",
+    "node: channel.restore_payments": "restore (Node::new_from_persistence)",
+    "onchain_validator: SimpleValidatorFactory.new": "constructor",
+    # the arms of do_handle are split off and scanned one by one (handler_arms)
+    "handler: self.do_handle": "split into its Message arms",
+    # methods of the guarded `State` value that share their name with the ChainMonitorBase wrapper taking the lock
+    "monitor: get_state().diagnostic": "State::diagnostic on the guard, not ChainMonitorBase::diagnostic",
+    "monitor: get_state().is_done": "State::is_done on the guard, not ChainMonitorBase::is_done",
+    "monitor: state.on_add_block_end": "State::on_add_block_end on the guard (no provider, no lock in reach)",
+    # ValidatorFactory::policy of the factory object, not Node::policy (which takes the factory lock)
+    "node: validator_factory().policy": "ValidatorFactory::policy of the factory object",
+    "node: validator_factory.policy": "ValidatorFactory::policy of the factory object",
+    "onchain_validator: inner_factory.policy": "ValidatorFactory::policy of the inner factory",
+    # closure parameter of ChainTracker::do_push = the monitor's push listener: covered by the `f(listener)` item
+    "tracker: pl.on_block_end": "closure parameter bound by f(listener)",
+    "tracker: pl.on_block_start": "closure parameter bound by f(listener)",
+    "tracker: pl.on_transaction_end": "closure parameter bound by f(listener)",
+    "tracker: pl.on_transaction_input": "closure parameter bound by f(listener)",
+    "tracker: pl.on_transaction_output": "closure parameter bound by f(listener)",
+    "tracker: pl.on_transaction_start": "closure parameter bound by f(listener)",
+}
+# type names whose associated functions live in the scanned files (a `Type::name(` call with any other
+# capitalised receiver is a function of another type)
+SCANNED_TYPES = ("Self", "Node", "Channel", "ChannelStub", "ChannelSlot", "ChannelBase", "ChainMonitor", "ChainMonitorBase",
+                 "ChannelCommitmentPointProvider", "SimpleValidator", "SimpleValidatorFactory", "OnchainValidator",
+                 "OnchainValidatorFactory", "ChainTracker", "RootHandler", "ChannelHandler", "InitHandler", "HandlerBuilder",
+                 "State", "NodeState")
 
 # public Node API that no handler arm calls but other front ends (vlsd's RPC server, embedders) do:
 # scanned as additional programs `Node.<name>`
@@ -248,6 +302,8 @@ class Scan:
         self.slot_w = []
         self.wpath = []
         self.cur_arm = None
+        # calls the name-based resolution could not follow: (file, receiver, name) -> {calling function}
+        self.unresolved = {}
         # names of functions of the scanned files that take `&mut self`
         self.mut_self_methods = set()
         for f in self.src:
@@ -349,6 +405,25 @@ class Scan:
                 # which forwards to do_push -> listener.on_push
                 return ("tracker", "do_push")
         return None
+
+    def resolve_multi(self, f, recv, name):
+        """all scanned functions a call can dispatch to.  A call on a validator object (`validator.x(`,
+        `self.validator().x(` in node.rs / channel.rs) can reach BOTH validator implementations
+        (SimpleValidator and OnchainValidator, which delegates to its `inner` SimpleValidator): every
+        implementation that defines the name is followed (union of their edges)."""
+        if (f, name) in GETTERS or name in METHOD_LOCKS[f]:
+            return []
+        if (f in ("node", "channel") and recv in VALIDATOR_RECEIVERS) :
+            tg = [(vf, name) for vf in ("validator", "onchain_validator") if name in self.fns[vf]]
+            if tg:
+                return tg
+        if f == "node" and recv == "ChannelCommitmentPointProvider" and name in self.fns["provider"]:
+            # setup_channel builds the provider of the ready channel: its constructor locks the (new) slot
+            return [("provider", name)]
+        if f == "onchain_validator" and recv == "inner" and name in self.fns["validator"]:
+            return [("validator", name)]
+        t = self.resolve(f, recv, name)
+        return [t] if t else []
 
     # ---- body walk -------------------------------------------------------------------------
     def items_of(self, f, name, method=None):
@@ -609,12 +684,20 @@ class Scan:
                     i = close
                     continue
                 elif name not in KEYWORDS:
-                    tgt = self.resolve(f, recv, name)
-                    if tgt and tgt not in GETTERS:
+                    tgts = [t for t in self.resolve_multi(f, recv, name) if t not in GETTERS]
+                    if len(tgts) == 1:
+                        tgt = tgts[0]
                         close = match_close(body, m.end() - 1, "(", ")")
                         meth = None if recv in ("Self",) else (recv != "")
                         pending.append((close, ("sub", tgt[0], tgt[1], meth)))
                         pending.sort(key=lambda p: -p[0])
+                    elif tgts:
+                        close = match_close(body, m.end() - 1, "(", ")")
+                        pending.append((close, ("choice", tgts)))
+                        pending.sort(key=lambda p: -p[0])
+                    elif not ((f, name) in GETTERS or name in METHOD_LOCKS[f]):
+                        who = "%s::%s" % self.stack[-1][:2] if self.stack else "%s::<arm %s>" % (f, self.cur_arm)
+                        self.unresolved.setdefault((f, recv, name), set()).add(who)
                 i = m.start("name") + len(name) if m.group("recv") else m.end("name")
                 continue
             if c.isalnum() or c == "_":
@@ -871,6 +954,96 @@ def handler_arms(sc):
     return out
 
 
+# files of the two crates that are NOT scanned but contain lock expressions, with the number of expressions (after
+# cutting `mod tests`) and the reason they are outside the request programs.  Any other unscanned file with a lock
+# expression, or a changed count, fails the extraction (file_census): re-review, then update.
+UNSCANNED_LOCK_FILES = {
+    "vls-core/src/verif_sync.rs": (4, "hook H2: the lock-event tap itself (its LOG mutex is a leaf)"),
+    "vls-core/src/util/clock.rs": (2, "ManualClock's own leaf mutex (test clock)"),
+    "vls-core/src/util/mocks.rs": (1, "test mocks"),
+    "vls-core/src/signer/multi_signer.rs": (8, "MultiSigner front end (several nodes in one process): its `nodes` map mutex is "
+                                            "taken first and nests only node_state/tracker of a node under construction; its "
+                                            "with_channel / with_channel_base are copies of Node::with_channel(_base) (slot "
+                                            "section = row channel_request / channel_base_request)"),
+}
+CENSUS_ROOTS = ("vls-core/src", "vls-protocol-signer/src")
+
+
+def file_census(repo):
+    """every .rs file of vls-core/src and vls-protocol-signer/src outside the scanned FILES (test files excluded) that
+    contains a lock expression must be listed in UNSCANNED_LOCK_FILES with its count -> sorted [(file, count)]"""
+    import os
+    found = {}
+    scanned = set(FILES.values())
+    for root in CENSUS_ROOTS:
+        base = os.path.join(repo, root)
+        if not os.path.isdir(base):
+            raise ExtractError("source directory disappeared: " + root)
+        for dp, _, fns in sorted(os.walk(base)):
+            for fn in sorted(fns):
+                rel = os.path.relpath(os.path.join(dp, fn), repo)
+                if not fn.endswith(".rs") or rel in scanned:
+                    continue
+                if fn.endswith("_tests.rs") or fn.endswith("_test.rs") or "/test_utils" in rel or "/tests/" in rel:
+                    continue
+                src = blank_literals(cut_tests(strip_comments(read(repo, rel))))
+                n = len(LOCK_SITE_RE.findall(src))
+                if n:
+                    found[rel] = n
+    for rel, n in sorted(found.items()):
+        if rel not in UNSCANNED_LOCK_FILES:
+            raise ExtractError("%s contains %d lock expression(s) but is not scanned: add it to FILES (and the call "
+                               "resolution), or review it and list it in UNSCANNED_LOCK_FILES" % (rel, n))
+        if UNSCANNED_LOCK_FILES[rel][0] != n:
+            raise ExtractError("%s: %d lock expressions, reviewed with %d (UNSCANNED_LOCK_FILES): re-review"
+                               % (rel, n, UNSCANNED_LOCK_FILES[rel][0]))
+    for rel in UNSCANNED_LOCK_FILES:
+        if rel not in found:
+            raise ExtractError("UNSCANNED_LOCK_FILES lists %s, which has no lock expression any more" % rel)
+    return sorted(found.items())
+
+
+def call_census(sc):
+    """Fail-closed check of the call-graph resolution (lock scopes taken through helper functions): every call
+    `recv.name(` / `name(` in a scanned body that the name-based resolution did NOT follow, although `name` is the
+    name of a function of the scanned files that (transitively) acquires a lock, must be listed in
+    UNRESOLVED_OK with the reason why it cannot be that function.  -> sorted ["file: recv.name", ...]"""
+    locking = {}
+    scanned_before = set(sc.scanned)
+    for f in sorted(sc.fns):
+        for name in sorted(sc.fns[f]):
+            if (f, name) in GETTERS:
+                locking.setdefault(name, set()).add(f)
+                continue
+            edges = set()
+            try:
+                sc.sim_stack = []
+                sc.simulate(sc.items_of(f, name, None), ["<held>"], edges, [], False)
+            except ExtractError:
+                edges = {("<held>", "?")}
+            if edges:
+                locking.setdefault(name, set()).add(f)
+    sc.sim_stack = []
+    sc.scanned = scanned_before
+    found = {}
+    for (f, recv, name), who in sorted(sc.unresolved.items()):
+        if name not in locking:
+            continue
+        if recv[:1].isupper() and recv not in SCANNED_TYPES:
+            continue      # associated function of a type that is not defined in the scanned files (Arc::new, Box::new ...)
+        key = "%s: %s.%s" % (f, recv, name) if recv else "%s: %s" % (f, name)
+        found[key] = (sorted(who), sorted(locking[name]))
+    for key, (who, where) in found.items():
+        if key not in UNRESOLVED_OK:
+            raise ExtractError("call `%s(` in %s is not followed by the scan, but a function of that name in %s takes a lock: "
+                               "teach Scan.resolve the receiver, or list it in UNRESOLVED_OK with the reason"
+                               % (key.split(": ")[1], ", ".join(who), "/".join(where)))
+    for key in UNRESOLVED_OK:
+        if key not in found:
+            raise ExtractError("UNRESOLVED_OK lists `%s`, which no longer occurs (or is resolved now)" % key)
+    return sorted(found)
+
+
 LOCK_SITE_RE = re.compile(r"\b(?:get_state|get_channels|get_tracker|validator_factory)\s*\(\s*\)|\w+\s*\.\s*lock\s*\(\s*\)")
 
 
@@ -1055,6 +1228,8 @@ def build(repo):
                      "path": path, "sections": secs, "wpath": sc.wpath})
     sc.arms = arms
     sc.sites, sc.unreached = site_census(sc)
+    sc.unresolved_locking = call_census(sc)
+    sc.unscanned_files = file_census(repo)
     return sc, table
 
 
@@ -1166,6 +1341,15 @@ def extract(repo):
           "def unreachedSites : List String := [%s]" % ", ".join('"%s"' % k for k in sc.unreached),
           "", "/-- (functions containing lock acquisitions, lock acquisition expressions in them, of which in reached functions) -/",
           "def siteCount : Nat × Nat × Nat := (%d, %d, %d)" % (len(sc.sites), sum(s[1] for s in sc.sites), sum(s[1] for s in sc.sites if s[2]))]
+    L += ["", "/-- calls in scanned bodies that the name-based call resolution does NOT follow although a function of the",
+          "same name in the scanned files takes a lock (`file: receiver.name`); each is reviewed in UNRESOLVED_OK of",
+          "x_locks.py (trait objects of the approver delegate chain, constructors/restore code, same-name methods of the",
+          "guarded data); any other such call makes the extraction fail -/",
+          "def unresolvedCalls : List String := [%s]" % ", ".join('"%s"' % k for k in sc.unresolved_locking)]
+    L += ["", "/-- files of vls-core/src and vls-protocol-signer/src that are not scanned although they contain lock",
+          "expressions (file, number of expressions), each reviewed in UNSCANNED_LOCK_FILES of x_locks.py; any other such",
+          "file, or a changed count, makes the extraction fail -/",
+          "def unscannedLockFiles : List (String × Nat) := [%s]" % ", ".join('("%s", %d)' % kv for kv in sc.unscanned_files)]
     docs = documented_orders(repo)
     L += ["", "/-- the lock orders that comments of the sources document (`lock order: a -> b -> c`, `a before b`,",
           "monitor.rs `Lock order: after self.state`): (file:line, chain of classes) -/",
@@ -1205,6 +1389,8 @@ def extract(repo):
                              "lock_expressions": sum(s[1] for s in sc.sites),
                              "in_reached_functions": sum(s[1] for s in sc.sites if s[2]),
                              "unreached": {k: NON_REQUEST_SITES[k] for k in sc.unreached}}
+    facts["_unscanned_files_with_locks"] = {k: UNSCANNED_LOCK_FILES[k][1] for k, _ in sc.unscanned_files}
+    facts["_call_census"] = {k: UNRESOLVED_OK[k] for k in sc.unresolved_locking}
     facts["_documented_lock_orders"] = {w: " -> ".join(ch) for w, ch in docs}
     facts["_scanned_functions"] = sorted(sc.scanned)
     facts["_recursion_cuts"] = sorted(sc.recursion_cuts)
